@@ -5,6 +5,9 @@ mod alloc;
 mod gen;
 #[cfg(not(miri))]
 mod liblzma;
+#[cfg(miri)]
+#[path = "liblzma_stub.rs"]
+mod liblzma;
 mod mon;
 mod refmodel;
 mod runner;
@@ -116,6 +119,36 @@ fn main() {
             println!("cut {} (boundary {}): {} out {} snaps {:?}", cut, b, run.verdict.short(), run.out.len(), run.snaps);
         }
         std::process::exit(0);
+    }
+    if what == "miri-slice" {
+        // C07 workload slice for `cargo miri run`: single-threaded, no FFI oracle.
+        // args: --seed S (shard) ; env LZVERIF_MIRI_CASES (default 20)
+        let n: u64 = std::env::var("LZVERIF_MIRI_CASES").ok().and_then(|s| s.parse().ok()).unwrap_or(20);
+        let mut cov = runner::Cov::default();
+        let mut bad = 0u64;
+        let mut ran = 0u64;
+        let mut bytes = 0u64;
+        let mut i = 0u64;
+        while ran < n {
+            let mut rng = util::Rng::for_case(seed, "miri", i);
+            i += 1;
+            let c = mon::c07::gen_case(&mut rng, Tier::Quick);
+            // Miri costs ~10 ms per decoded byte: keep the inputs tiny
+            if c.data.len() > 160 {
+                continue;
+            }
+            let m = mon::c07::run_case(&c);
+            let mut out = runner::CaseOut::default();
+            mon::c07::judge(&c, &m, &mut out, &mut cov);
+            ran += 1;
+            bytes += c.data.len() as u64 + m.produced;
+            for v in &out.violations {
+                bad += 1;
+                println!("VIOLATION property=C07 replay=(miri shard {} case {}) {} :: {}", seed, i - 1, v.signature, v.detail);
+            }
+        }
+        println!("miri-slice shard {}: {} cases, {} bytes in+out, {} violations, no undefined behaviour reported by the interpreter", seed, ran, bytes, bad);
+        std::process::exit(if bad > 0 { 1 } else { 0 });
     }
     if what == "selfcheck" {
         match selfcheck::run(seed, tier.pick(12, 120)) {
